@@ -57,9 +57,10 @@ ob("bit_stale_read", ["C05", "C13"], entry="h_bit_stale_read", mode="bounded",
    bound="2-call history: Hstartbitread (4-byte element), Hbitread(1..7 bits), Hendbitaccess, Hbitread(same id)", unwind=18, **BIT)
 
 # ----------------------------------------------------------------------------- cnbit.c
-ob("cnbit_init", "C05", entry="h_cnbit_init", enforce="HCIcnbit_init", unit="cnbit_u.c", file="hdf/src/cnbit.c",
-   mode="proved-finite", bound="nt_size in {1,2,4,8} (loops run nt_size <= 8 times), every mask_off/mask_len/fill_one",
-   unwind=9, cex_unwind=9, objbits=10)
+for _nt in (1, 2, 4, 8):
+    ob(f"cnbit_init_nt{_nt}", "C05", entry="h_cnbit_init", enforce="HCIcnbit_init", unit="cnbit_u.c", file="hdf/src/cnbit.c",
+       mode="proved-finite", bound=f"nt_size = {_nt} (one run per size of {{1,2,4,8}}; loops run nt_size times), every mask_off/mask_len/fill_one",
+       defines=[f"NB_NT={_nt}"], unwind=9, cex_unwind=9, objbits=10, timeout=300)
 
 prop("C05",
      residual="skipping-Huffman, deflate (zlib external), n-bit coder encode/decode (only HCIcnbit_init's mask tables are proved), HCPcrle_seek restart, hcomp.c dispatch/header "
